@@ -162,6 +162,19 @@ CHECKS['C12'] = dict(
     note=TB + 'Assumes the file system renames atomically. Stops are injected in a child process by patching run_once/save_json/the file object.',
     technique='Coq theorems (run/checkpoint/restart state machine, all histories) + kernel-evaluated correspondence under crash injection')
 
+CHECKS['C11'] = dict(
+    category='proof',
+    text=('Unbounded Coq theorems: for every decoder and error the trial record satisfies all four relations and success equals the '
+          'C04 verdict on error+correction; for any interleaving of run(k) calls all result lists have length n_runs = sum k, the state '
+          'does not depend on the interleaving, n_fail + n_success = n_runs; k trials on n qubits consume exactly k*n variates and runs '
+          'compose on the stream (reproducibility from the seed). Kernel-evaluated: every recorded trial of the real run_once on six '
+          'setups against the model; bookkeeping of DirectSimulation. PARTIAL: calibration (unbiasedness) is a 5-sigma statistical test '
+          'of the seeded frequency against the exact failure probability from full 4^n enumeration through the real decoder with a '
+          'hand-built channel; the noise-model object is reused across codes.'),
+    design_ref='DESIGN.md section 5 C11',
+    note=TB + 'NumPy bit generator and third-party decoders exercised, not modelled; unseeded default generator (rng=None) not covered.',
+    technique='Coq theorems (trial record relations, bookkeeping state machine, stream discipline) + kernel-evaluated trial correspondence; calibration statistical')
+
 NOT_APPLICABLE = {}
 
 PENDING = ['C02', 'C03', 'C04', 'C05', 'C06', 'C07', 'C08', 'C09', 'C10', 'C11', 'C12', 'C13', 'C14', 'C15',
